@@ -142,9 +142,15 @@ pub fn step<const M: usize>(s: &mut Sim<M>, rep: &mut Report, p: &Profile) -> (u
             let (esz, _) = type_layout(ty);
             let bytes = pick_size(s, p);
             let len = if esz == 0 { s.rng.below(40) } else { bytes / esz };
-            let kind = s.rng.below(7) as u8;
+            let kind = s.rng.below(8) as u8;
             let f = fl(s);
-            s.op_alloc_slice(rep, ty, len, kind, f)
+            if kind == 7 {
+                let wide = s.rng.chance(1, 2);
+                let n = bytes / if wide { 24 } else { 8 };
+                s.op_alloc_slice_default(rep, n, wide, f)
+            } else {
+                s.op_alloc_slice(rep, ty, len, kind, f)
+            }
         }
         3 => {
             let len = pick_size(s, p).min(4096);
